@@ -167,7 +167,7 @@ def verify(nodes, names, adj, *, tree, ctx, check_steps=True, pairs=None):
             raise Violation("self-path", f"{ctx()}: path to itself from '{names[s]}' is {src.path(names[s])}")
 
 
-def play(n, seq, names, *, tree, verified=0, check_steps_last_only=False, extra=None):
+def play(n, seq, names, *, tree, verified=0, check_steps_last_only=False, extra=None, suspend=False):
     """Run one history on fresh nodes: seq = [(a, b), ...] meaning nodes[a] + nodes[b].
     States after the first `verified` insertions are not re-verified (they were by the caller)."""
     from beyond.utils.node import Node
@@ -179,7 +179,15 @@ def play(n, seq, names, *, tree, verified=0, check_steps_last_only=False, extra=
     def ctx():
         return (f"{len(names)} nodes, after inserting " + " ".join(f"{names[a]}+{names[b]}" for a, b in done))
 
+    pending = None
     for k, (a, b) in enumerate(seq):
+        if suspend and k >= 1 and pending is None:
+            # a steps() iteration started now, suspended over the next insertion, finished after it
+            src = seq[k - 1][0]
+            far = max(range(len(names)), key=lambda g: G.bfs_dist(adj, src)[g])
+            if far != src and G.bfs_dist(adj, src)[far] >= 1:
+                gen = nodes[src].steps(Goal(names[far]))
+                pending = (src, far, gen, [next(gen)])
         res = nodes[a] + nodes[b]
         if res is not nodes[b]:
             raise Violation("add-result", f"`a + b` returned {res!r} instead of b")
@@ -187,6 +195,24 @@ def play(n, seq, names, *, tree, verified=0, check_steps_last_only=False, extra=
             adj[a].append(b)
             adj[b].append(a)
         done.append((a, b))
+        if pending is not None:
+            src, far, gen, hops = pending
+            pending = None
+            for _ in range(len(names) + 2):
+                try:
+                    hops.append(next(gen))
+                except StopIteration:
+                    break
+            chain = [hops[0][0]] + [h[1] for h in hops]
+            idx = {id(nd): i for i, nd in enumerate(nodes)}
+            ids = [idx.get(id(o), -1) for o in chain]
+            ok = (ids[0] == src and ids[-1] == far and -1 not in ids and len(set(ids)) == len(ids)
+                  and all(hops[i][1] is hops[i + 1][0] for i in range(len(hops) - 1))
+                  and all(y in adj[x] for x, y in zip(ids, ids[1:])))
+            if not ok:
+                raise Violation("suspended-steps", f"{ctx()}: steps('{names[far]}') from '{names[src]}', started before the "
+                                f"last insertion and finished after it, gave {[(x.name, y.name) for x, y in hops]}",
+                                inserted=[list(e) for e in done])
         if k >= verified:
             last = k == len(seq) - 1
             try:
@@ -481,7 +507,7 @@ def check_lab_case(case):
     edges = G.prufer_decode(case["prufer"], n)
     order = G.nth_permutation(range(m), case["perm"])
     seq = [edges[j] if not (case["mask"] >> k) & 1 else edges[j][::-1] for k, j in enumerate(order)]
-    nodes, adj = play(n, seq, case["names"], tree=True)
+    nodes, adj = play(n, seq, case["names"], tree=True, suspend=case.get("by_object", False))
     audit_final(nodes, case["names"], adj, case["by_object"])
     deg = max(len(a) for a in adj)
     return dict(nt=True, cls=[f"n={n}", "star" if deg == n - 1 else "path" if deg == 2 else "other"], ratio=0.0)
@@ -552,7 +578,7 @@ def check_graph_case(case):
         seq.insert(min(pos, len(seq)), (b, a) if case["keys"][j] % 2 else (a, b))
     names = [str(i) for i in range(n)] + (["lonely"] if case["lonely"] else [])
     cyc = G.has_cycle(n, edges)
-    nodes, adj = play(n, seq, names, tree=False)
+    nodes, adj = play(n, seq, names, tree=False, suspend=case.get("by_object", False))
     audit_final(nodes, names, adj, case["by_object"])
     return dict(nt=n >= 4, cls=[f"n={n}", "cyclic" if cyc else "tree", "dup" if case["dup"] else "simple"], ratio=0.0)
 
@@ -592,7 +618,8 @@ def reg_case(draw, shard, tier):
                             lat=d.u(-89.0, 89.0), lon=d.u(-180.0, 180.0), alt=d.u(0.0, 3000.0),
                             parent=d.pick("ITRF", "ITRF", "TIRF", "PEF"), equatorial=d.int(0, 5) == 0))
         elif kind == "orbit":
-            ops.append(dict(op="orbit", orientation=d.pick(None, "QSW", "TNW"), frame=d.pick("EME2000", "EME2000", "MOD", "TOD", "MOD", "EME2000", "TOD", "GCRF"),
+            ops.append(dict(op="orbit", epoch_off=d.pick(0.0, 0.0, 1e-6, -1e-6, 60.0, -600.0, 3600.0, 86400.0),
+                            orientation=d.pick(None, "QSW", "TNW"), frame=d.pick("EME2000", "EME2000", "MOD", "TOD", "MOD", "EME2000", "TOD", "GCRF"),
                             parent=d.pick("EME2000", "EME2000", "MOD", "TOD"),
                             a=d.u(6.8e6, 4.3e7), e=d.u(0.0, 0.3), i=d.u(0.05, 3.0), raan=d.u(0, 6.2), argp=d.u(0, 6.2),
                             nu=d.u(0, 6.2)))
@@ -699,6 +726,38 @@ def check_registrations(case):
                     raise Violation("held-result-differs", f"{what}: a state vector held in '{fname}' (clone: "
                                     f"{case.get('hold', 'none')}) converts to '{tgt}' as {now.tolist()}, a fresh conversion "
                                     f"of the same probe gives {fresh.tolist()}")
+
+    def refused_atomically(what, name):
+        """A conversion that cannot be made (target frame not connected to the graph) and a registration that is
+        refused (unknown orientation) raise - and leave the state vector / the registries exactly as they were."""
+        if "iso" not in _proc:
+            _proc["iso"] = frames.Frame(f"VFiso{os.getpid() % 1000}", orient.EME2000, center.Center(f"VFisoC{os.getpid() % 1000}"))
+        victim = sv0.copy(frame=name, form="spherical")
+        before = arr(victim)
+        try:
+            victim.frame = _proc["iso"]
+        except ValueError:
+            pass
+        else:
+            raise Violation("unconnected-converted", f"{what}: '{name}' -> a frame whose centre is linked to nothing gave {arr(victim).tolist()}")
+        # (the setter goes to cartesian form and back: the numbers may move by a rounding - exact atomicity
+        #  is C15's subject; here the vector must still be the same point under the same labels)
+        if not (np.allclose(arr(victim), before, rtol=1e-12, atol=0.0) and victim.frame.name == name
+                and victim.form.name == "spherical"):
+            raise Violation("refusal-not-atomic", f"{what}: after the refused conversion the state vector is "
+                            f"{arr(victim).tolist()} in {victim.frame.name}/{victim.form.name}, it was {before.tolist()} in {name}/spherical")
+        nodes_before = (len(orient.EME2000.list), len(center.Earth.node.list), len(frames.dynamic))
+        ghost = f"{name}?bad"
+        try:
+            orbit2frame_call(ghost, Orbit(case["sv"], date, "cartesian", "EME2000", "Kepler"), "XYZ", frames.get_frame("EME2000"))
+        except ValueError:
+            pass
+        else:
+            raise Violation("bad-orientation-accepted", f"{what}: orbit2frame(orientation='XYZ') was accepted")
+        if (len(orient.EME2000.list), len(center.Earth.node.list), len(frames.dynamic)) != nodes_before or ghost in frames.dynamic:
+            raise Violation("refusal-not-atomic", f"{what}: the refused orbit2frame('{ghost}', orientation='XYZ') left something "
+                            f"registered (graph / registry sizes {nodes_before} -> "
+                            f"{(len(orient.EME2000.list), len(center.Earth.node.list), len(frames.dynamic))})")
 
     def spellings_agree(what, name):
         """Name or object, for every API that takes a frame / centre / orientation."""
@@ -822,8 +881,25 @@ def check_registrations(case):
         elif op["op"] == "orbit":
             mu = 3.986004418e14
             rv = tb.kep2cart(op["a"], op["e"], op["i"], op["raan"], op["argp"], op["nu"], mu)
-            orb = Orbit(rv.tolist(), date, "cartesian", op["frame"], "Kepler")
+            off = op.get("epoch_off", 0.0)
+            # the reference orbit is dated `off` seconds BEFORE the probe (0 = the probe is exactly at its epoch)
+            orb = Orbit(rv.tolist(), date - __import__("datetime").timedelta(seconds=off) if off else date, "cartesian",
+                        op["frame"], "Kepler")
             fr = orbit2frame_call(name, orb, op["orientation"], frames.get_frame(op["parent"]))
+            # absolute check (the relations below are all relative): the origin of the new frame is where the
+            # oracle's two-body propagation puts the reference orbit at the probe date
+            origin = arr(StateVector([0.0] * 6, date, "cartesian", name).copy(frame=op["frame"]))
+            real_off = (date - orb.date).total_seconds()
+            from beyond import constants
+
+            want_o = tb.propagate_uv(rv, real_off, float(constants.Earth.mu))   # mu as the library defines it
+            # (tolerance = accuracy of the library's Kepler propagator, C05's subject: its Kepler equation is solved
+            #  to ~1e-8 rad - 0.15 m seen at 17 000 km; a frozen or misdated offset is off by kilometres)
+            if (np.linalg.norm(origin[:3] - want_o[:3]) > 2e-7 * np.linalg.norm(want_o[:3]) * (1 if real_off else 1e-6) + 1e-6
+                    or np.linalg.norm(origin[3:] - want_o[3:]) > 2e-7 * np.linalg.norm(want_o[3:]) * (1 if real_off else 1e-6) + 1e-9):
+                raise Violation("frame-origin", f"orbit frame '{name}' ({op['orientation']}) whose reference orbit is dated "
+                                f"{real_off} s before the probe: its origin is at {origin.tolist()} in {op['frame']}, two-body "
+                                f"motion puts the orbit at {want_o.tolist()}")
         elif op["op"] == "attached":
             pool = [g for g in generated if g[1] == "station"] if op["prefer_station"] else []
             pool = pool or generated or [("ITRF", "builtin"), ("EME2000", "builtin")]
@@ -873,6 +949,7 @@ def check_registrations(case):
         held_intact(what)
         spellings_agree(what, name)
         known.pop()
+        refused_atomically(what, name)
         if case.get("label", "UTC") != "UTC":
             # same instant, other time-scale label: the new frame is where it was under UTC
             lab = arr(sv0.copy(frame=name))
